@@ -7,6 +7,7 @@ collection filters go through make_attrgetter / make_multi_attrgetter with the c
 post-processing selected by ``case_sensitive``; the slicing arithmetic of ``slice`` and the
 fill rule of ``batch`` as linear forms; empty-input behaviour (min/max/first/last return
 undefined; sum starts from ``start``); unique keeps first occurrences (seen-set protocol).
+Also: the attribute default is applied at every segment of a dotted path.  
 Not decided: sortedness / partition properties over all inputs - they quantify over values.
 """
 
